@@ -318,6 +318,7 @@ package frugal
 // ---- registry (C01, C06) ------------------------------------------------------------------------------
 
 //@ guard lib.fRegistryImpl.mu protects channels
+//@   invariant self.channels != nil
 
 // ---- header encoding (C04) ------------------------------------------------------------------------------
 // hsum(m) is the documented size of the header block: for every pair a 4-byte name length, the name,
@@ -473,7 +474,13 @@ package frugal
 //@   functype
 //@   ensures result == mwapp(self, arg0)
 
+// The base handler is a closure over the wrapped function (named mwbase by this contract).
+//@ func lib.newInvocationHandler
+//@   ensures result != nil
+//@   modifies alloc
+
 //@ func lib.composeMiddleware
+//@   modifies alloc
 //@   ensures ncalls("lib.newInvocationHandler") == 1
 //@   ensures result == mwfold(elems(middleware), off(middleware), len(middleware), callret("lib.newInvocationHandler", 0, 0))
 //@   loop 0 invariant 0 - 1 <= rangeindex && rangeindex + 1 <= len(middleware) && middleware == middleware0
@@ -637,3 +644,49 @@ package frugal
 // Only close() posts to the close signal, and only with the transport mutex held.
 //@ container lib.fAdapterTransport.closeSignal sendlocked
 //@ container lib.fAdapterTransport.closeChan sendlocked
+
+// ---- registry view (C01) -------------------------------------------------------------------------------------
+// Sequential view of the registry map (exclusive clauses); the locking discipline is proved in the normal pass.
+
+//@ func lib.fRegistryImpl.Register
+//@   ensures ncalls("lib.getOpID") == 1
+//@   ensures_exclusive result == nil && callret("lib.getOpID", 0, 1) == nil ==> has(c.channels, callret("lib.getOpID", 0, 0)) && c.channels[callret("lib.getOpID", 0, 0)] == resultC && !old(has(c.channels, callret("lib.getOpID", 0, 0)))
+//@   ensures_exclusive result != nil ==> dom(c.channels) == old(dom(c.channels)) && vals(c.channels) == old(vals(c.channels))
+//@   ensures_exclusive result == nil ==> forall(k, 0, 18446744073709551616, k != callret("lib.getOpID", 0, 0) ==> has(c.channels, k) == old(has(c.channels, k)) && c.channels[k] == old(c.channels[k]))
+//@   modifies mapof(c.channels), alloc
+
+//@ func lib.fRegistryImpl.Unregister
+//@   ensures ncalls("lib.getOpID") == 1
+//@   ensures_exclusive callret("lib.getOpID", 0, 1) == nil ==> !has(c.channels, callret("lib.getOpID", 0, 0))
+//@   ensures_exclusive forall(k, 0, 18446744073709551616, k != callret("lib.getOpID", 0, 0) ==> has(c.channels, k) == old(has(c.channels, k)) && c.channels[k] == old(c.channels[k]))
+//@   modifies mapof(c.channels), alloc
+
+// Routing is by the op id parsed from the frame's own headers and nothing else.
+//@ specfn parseuint(Str) Int
+//@ func lib.fRegistryImpl.Execute
+//@   ensures result == nil ==> ncalls("lib.fRegistryImpl.dispatch") == 1 && ncalls("lib.getHeadersFromFrame") == 1 && ncalls("strconv.ParseUint") == 1
+//@   ensures result == nil ==> callarg("lib.fRegistryImpl.dispatch", 0, 1) == callret("strconv.ParseUint", 0, 0) && callarg("lib.fRegistryImpl.dispatch", 0, 2) == frame
+//@   ensures result == nil ==> callarg("strconv.ParseUint", 0, 0) == callret("lib.getHeadersFromFrame", 0, 0)["_opid"] && callarg("lib.getHeadersFromFrame", 0, 0) == frame
+//@   ensures ncalls("lib.fRegistryImpl.dispatch") <= 1
+//@   ensures ncalls("lib.getHeadersFromFrame") == 1 && callret("lib.getHeadersFromFrame", 0, 1) != nil ==> ncalls("lib.fRegistryImpl.dispatch") == 0 && result != nil
+//@   modifies *
+
+// dispatch never changes the registry; the only thing it can do is offer the frame to the channel
+// registered for that op id (at most one non-blocking send).
+//@ func lib.fRegistryImpl.dispatch
+//@   ensures result == nil
+//@   ensures_exclusive dom(c.channels) == old(dom(c.channels)) && vals(c.channels) == old(vals(c.channels))
+//@   ensures nsends() <= 1
+//@   ensures_exclusive nsends() == 1 ==> has(c.channels, opid) && sendchan(0) == c.channels[opid] && sendval(0) == frame
+//@   ensures_exclusive !has(c.channels, opid) ==> nsends() == 0
+//@   modifies heap(CL!)
+
+// Reading the op id of a context changes nothing.
+//@ func lib.getOpID
+//@   modifies alloc
+//@ func lib.FContextImpl.RequestHeader
+//@   noescape
+//@ iface lib.FContext.RequestHeader
+//@   same_as lib.FContextImpl.RequestHeader
+//@ func lib.FContextImpl.ResponseHeader
+//@   noescape
